@@ -88,7 +88,11 @@ def make_others(seed):
   out = []
   for i in range(6):
     rng = random.Random(f"{PID}-{seed}-other-{i}")
-    out.append([programs.generate(rng), errorful.generate(rng, 5)[0], errorful.generate_ordering(rng)][i % 3])
+    # history programs only have to have been analysed before the target: five cheap ones and one
+    # ordering-stress program (the heavy kind) keep the quick tier inside its budget
+    kind = ("clean", "errorful", "clean", "errorful", "ordering", "clean")[i]
+    out.append({"clean": programs.generate, "errorful": lambda g: errorful.generate(g, 5)[0],
+                "ordering": errorful.generate_ordering}[kind](rng))
   return out
 
 
